@@ -195,6 +195,13 @@ theorem inv_onOut {c : Cfg} (io : Nat → Fault) (st : St) (g : File → File)
         rw [hg] at hf0; cases hf0
         exact Or.inr ⟨hho, hoo, g f, by simp, hwr f _ hw0⟩
 
+theorem allDur_onOut (io : Nat → Fault) (st : St) (g : File → File)
+    (hle : ∀ f, FileLe f (g f)) (ha : AllDur st) : AllDur (onOut io st g) := by
+  apply onOut_elim
+  · intro s' hd; exact AllDur_dead hd
+  · intro f hr _ _ hg _ m hm
+    exact DurS_set_le hg (hle f) (ha hr m hm)
+
 /-- `Sync()` (also the first half of `Close()`): afterwards every pending message is durable -/
 theorem inv_syncOut {c : Cfg} (io : Nat → Fault) (st : St) (h : Inv c st) :
     Inv c (syncOut c io st) ∧ AllDur (syncOut c io st) := by
@@ -446,6 +453,19 @@ theorem AllDur_congr {st s' : St} (h : AllDur st) (h1 : s'.fs = st.fs) (h3 : s'.
 
 theorem mkPath_out (c : Cfg) (o : Bool) (t : String) (r : Nat) : (mkPath c o t r).out = o := rfl
 
+theorem inv_sealTail {c : Cfg} (io : Nat → Fault) (s1 : St) (f : File) (h : Inv c s1) (ha : AllDur s1) :
+    Inv c (sealTail c io s1 f) ∧ AllDur (sealTail c io s1 f) := by
+  unfold sealTail
+  split
+  · have h2 := inv_onOut (c := c) io s1 (fileWrite c.gzip [10]) (fileWrite_le c.gzip [10])
+      (fun f l => Wr_write c.gzip [10] f l) h
+    have a2 := allDur_onOut io s1 (fileWrite c.gzip [10]) (fileWrite_le c.gzip [10]) ha
+    simp only []
+    split
+    · exact ⟨h2, a2⟩
+    · exact ⟨Inv_congr h2 rfl rfl rfl rfl rfl rfl rfl, AllDur_congr a2 rfl rfl rfl⟩
+  · exact ⟨h, ha⟩
+
 theorem inv_openNew {c : Cfg} (io : Nat → Fault) (st : St) (fn : String) (h : Inv c st) (ha : AllDur st) :
     Inv c (openNew c io st fn) ∧ AllDur (openNew c io st fn) := by
   unfold openNew
@@ -471,7 +491,16 @@ theorem inv_openNew {c : Cfg} (io : Nat → Fault) (st : St) (fn : String) (h : 
                fun _ m hm => hnew _ (ha hr m hm)⟩
       | some f =>
         simp only []
-        exact ⟨⟨h.fin, fun _ m hm => Or.inl (ha hr m hm), fun hw _ => hwd hw⟩, fun _ m hm => ha hr m hm⟩
+        have key : ∀ s1 : St, s1.fs = st.fs → s1.finished = st.finished → s1.pending = st.pending →
+            s1.status = st.status → s1.outPath = mkPath c (!c.workDir) fn r → Inv c s1 ∧ AllDur s1 := by
+          intro s1 e1 e2 e3 e4 e5
+          refine ⟨⟨by rw [e1, e2]; exact h.fin, ?_, fun hw _ => by rw [e5]; exact hwd hw⟩, ?_⟩
+          · intro hr1 m hm; rw [e3] at hm; exact Or.inl (by rw [e1]; exact ha hr m hm)
+          · intro hr1 m hm; rw [e3] at hm; rw [e1]; exact ha hr m hm
+        have k2 : ∀ s1 : St, Inv c s1 ∧ AllDur s1 → Inv c (sealTail c io s1 f) ∧ AllDur (sealTail c io s1 f) :=
+          fun s1 hh => inv_sealTail io s1 f hh.1 hh.2
+        apply k2
+        exact key _ rfl rfl rfl rfl rfl
 
 /-- `updateFile()` (rotation): the old file is closed durably before the new one is opened, so every
 message written so far is durable whenever the tool is still running afterwards -/
@@ -490,31 +519,53 @@ theorem onOut_running (io : Nat → Fault) (st : St) (g : File → File) (h : (o
   · intro s' hd hr; exact absurd hr hd.1
   · intro f hr hho hoo hg _; exact ⟨f, hr, hho, hoo, hg, rfl⟩
 
-theorem inv_writeMsg {c : Cfg} (io : Nat → Fault) (st : St) (m : Msg) (h : Inv c st) : Inv c (writeMsg c io st m) := by
-  unfold writeMsg
+theorem Wr_line1 (gz : Bool) (f : File) (body : Bytes) : Wr gz (fileWrite gz (body ++ [10]) f) (body ++ [10]) := by
+  unfold Wr fileWrite
+  cases gz <;> simp
+  · exact ⟨f.data ++ f.tail, [], by simp⟩
+  · exact ⟨f.data ++ f.tail, [], by simp⟩
+
+/-- the record of one message (either shape): invariant kept; if still running, the line is in the open file -/
+theorem inv_writeLine {c : Cfg} (io : Nat → Fault) (st : St) (m : Msg) (h : Inv c st) :
+    Inv c (writeLine c io st m) ∧ ((writeLine c io st m).status = .running →
+      (writeLine c io st m).hasOut = true ∧ (writeLine c io st m).outOpen = true ∧
+      (writeLine c io st m).pending = st.pending ∧
+      ∃ f, (writeLine c io st m).fs.get (writeLine c io st m).outPath = some f ∧ Wr c.gzip f (line m)) := by
+  unfold writeLine
   have hw := fun (b : Bytes) (s : St) (hs : Inv c s) =>
     inv_onOut (c := c) io s (fileWrite c.gzip b) (fileWrite_le c.gzip b) (fun f l => Wr_write c.gzip b f l) hs
-  have h2 : Inv c (onOut io (onOut io st (fileWrite c.gzip m.body)) (fileWrite c.gzip [10])) := hw _ _ (hw _ _ h)
-  by_cases hr : (onOut io (onOut io st (fileWrite c.gzip m.body)) (fileWrite c.gzip [10])).status ≠ .running
+  by_cases h1w : c.oneWrite = true
+  · rw [if_pos h1w]
+    refine ⟨hw _ _ h, fun hr' => ?_⟩
+    obtain ⟨f0, hr0, hho0, hoo0, hg0, he0⟩ := onOut_running io st _ hr'
+    rw [he0]
+    exact ⟨hho0, hoo0, rfl, fileWrite c.gzip (m.body ++ [10]) f0, by simp, Wr_line1 c.gzip f0 m.body⟩
+  · rw [if_neg h1w]
+    refine ⟨hw _ _ (hw _ _ h), fun hr' => ?_⟩
+    obtain ⟨f1, hr1, hho1, hoo1, hg1, he1⟩ := onOut_running io _ _ hr'
+    obtain ⟨f0, hr0, hho0, hoo0, hg0, he0⟩ := onOut_running io st _ hr1
+    have hf1 : f1 = fileWrite c.gzip m.body f0 := by
+      rw [he0] at hg1; simpa using hg1.symm
+    rw [he1]
+    refine ⟨hho1, hoo1, by rw [he0], fileWrite c.gzip [10] f1, by simp, ?_⟩
+    rw [hf1]; exact Wr_line c.gzip f0 m.body
+
+theorem inv_writeMsg {c : Cfg} (io : Nat → Fault) (st : St) (m : Msg) (h : Inv c st) : Inv c (writeMsg c io st m) := by
+  unfold writeMsg
+  obtain ⟨h2, hl⟩ := inv_writeLine io st m h
+  by_cases hr : (writeLine c io st m).status ≠ .running
   · rw [if_pos hr]; exact h2
   · rw [if_neg hr]
-    have hr' : (onOut io (onOut io st (fileWrite c.gzip m.body)) (fileWrite c.gzip [10])).status = .running := by simpa using hr
-    by_cases hp : (onOut io (onOut io st (fileWrite c.gzip m.body)) (fileWrite c.gzip [10])).pending.length ≥ c.maxInFlight
+    have hr' : (writeLine c io st m).status = .running := by simpa using hr
+    by_cases hp : (writeLine c io st m).pending.length ≥ c.maxInFlight
     · rw [if_pos hp]
       exact Inv_dead h2 ⟨by simp, rfl, rfl, rfl, rfl⟩
     · rw [if_neg hp]
-      obtain ⟨f1, hr1, hho1, hoo1, hg1, he1⟩ := onOut_running io _ _ hr'
-      obtain ⟨f0, hr0, hho0, hoo0, hg0, he0⟩ := onOut_running io st _ hr1
-      have hf1 : f1 = fileWrite c.gzip m.body f0 := by
-        rw [he0] at hg1; simpa using hg1.symm
+      obtain ⟨hho, hoo, _, f, hg, hwr⟩ := hl hr'
       refine ⟨h2.fin, ?_, h2.wd⟩
       intro _ x hx
       cases hx with
-      | head =>
-        right
-        refine ⟨by rw [he1]; exact hho1, by rw [he1]; exact hoo1, fileWrite c.gzip [10] f1, ?_, ?_⟩
-        · rw [he1]; simp
-        · rw [hf1]; exact Wr_line c.gzip f0 m.body
+      | head => exact Or.inr ⟨hho, hoo, f, hg, hwr⟩
       | tail _ hx => exact h2.pend hr' x hx
 
 theorem Inv_ite {c : Cfg} {p : Prop} [Decidable p] {a b : St} (ha : Inv c a) (hb : Inv c b) :
@@ -568,6 +619,31 @@ theorem inv_step {c : Cfg} (io : Nat → Fault) (st : St) (ev : Ev) (starved : B
           obtain ⟨h1, h2, f, hf, hw0⟩ := hw
           have hne : st.outPath ≠ p := by intro e; rw [e, hfree] at hf; cases hf
           exact Or.inr ⟨h1, h2, f, by rw [get_set_ne _ _ _ _ hne]; exact hf, hw0⟩
+    | extAppend p data =>
+      simp only []
+      cases hg : st.fs.get p with
+      | none => exact h
+      | some f =>
+        simp only []
+        by_cases hx : c.excl = true
+        · rw [if_pos hx]; exact h
+        · rw [if_neg hx]
+          have hgz : c.gzip = false := by
+            cases hgz : c.gzip
+            · rfl
+            · exfalso; apply hx; simp [Cfg.excl, hgz]
+          refine ⟨fun m hm => DurS_set_le hg (fileWrite_le false data f) (h.fin m hm), ?_, h.wd⟩
+          intro hr' m hm
+          cases h.pend hr' m hm with
+          | inl hd => exact Or.inl (DurS_set_le hg (fileWrite_le false data f) hd)
+          | inr hw =>
+            obtain ⟨h1, h2, f0, hf0, hw0⟩ := hw
+            by_cases hpe : st.outPath = p
+            · rw [hpe, hg] at hf0; cases hf0
+              refine Or.inr ⟨h1, h2, fileWrite false data f, by rw [hpe]; simp, ?_⟩
+              have := Wr_write false data f _ (by rw [hgz] at hw0; exact hw0)
+              rw [hgz]; exact this
+            · exact Or.inr ⟨h1, h2, f0, by rw [get_set_ne _ _ _ _ hpe]; exact hf0, hw0⟩
 
 theorem inv_run {c : Cfg} (io : Nat → Fault) (evs : List (Ev × Bool)) (st : St) (h : Inv c st) :
     Inv c (run c io st evs) := by
